@@ -572,28 +572,70 @@ def channel_route_direction_rule(run):
     fx = run.fx
     CR = 'sim::configuration::channel_route'
     n = 0
-    for fname, src_roots, dst_roots in (('sim::simulation::find_udp_socket', ('socket',), ('ep',)), ('sim::simulation::internal_connect', ('s', 'from'), ('target',))):
+    def roots_of(f, e, depth=0):
+        out = set()
+        for x in walk(e):
+            if x['k'] == 'ref' and x.get('dk') == 'param':
+                out.add(x.get('name'))
+            elif x['k'] == 'ref' and x.get('dk') == 'local' and depth < 4:
+                for _s, d_ in q.local_defs(f, x['did']):
+                    out |= roots_of(f, d_, depth + 1)
+        return out
+    for fname in ('sim::simulation::find_udp_socket',):
         f = fx.fn1(fname)
         run.touch(f)
         pn = [p.get('name') for p in f.params]
         calls = [c for c in f.calls() if q.callee_name(c) == CR or (q.callee_name(c) or '').endswith('::channel_route')]
         for c in calls:
             n += 1
-            def roots(e, depth=0):
-                out = set()
-                for x in walk(e):
-                    if x['k'] == 'ref' and x.get('dk') == 'param':
-                        out.add(x.get('name'))
-                    elif x['k'] == 'ref' and x.get('dk') == 'local' and depth < 3:
-                        for _s, d_ in q.local_defs(f, x['did']):
-                            out |= roots(d_, depth + 1)
-                return out
-            r0, r1 = roots(c['args'][0]), roots(c['args'][1])
+            r0, r1 = roots_of(f, c['args'][0]), roots_of(f, c['args'][1])
             # the sending side is the first parameter of the function (the socket), the destination the endpoint parameter
             send_p, dst_p = pn[0], pn[1] if len(pn) > 1 else None
             ok = send_p in r0 and dst_p in r1 and dst_p not in r0 and send_p not in r1
             run.check(ok, 'R4', 'channel-route-direction', '%s: channel_route(%s, %s)' % (fname, q.render(f, c['args'][0])[:30], q.render(f, c['args'][1])[:30]), f.loc(c),
                       'channel_route is asked for (%s, %s): its first argument must come from the sending socket (%s) and its second from the destination (%s) - swapped, the packets cross the network hops configured for the opposite direction' % (sorted(r0), sorted(r1), send_p, dst_p),
                       'asked for (sender, destination)')
-    if n < 2:
-        run.broke('fewer than 2 calls of configuration::channel_route found (find_udp_socket, internal_connect)')
+    # a TCP channel has one route per direction: in each  X.get_outgoing_route() + channel_route(a, b) + Y.get_incoming_route()
+    # the network part is asked for the direction X -> Y (a from X's side, b from Y's side)
+    f = fx.fn1('sim::simulation::internal_connect')
+    run.touch(f)
+    pn = [p.get('name') for p in f.params]
+    side = lambda rs: 'S' if (pn[0] in rs and pn[1] not in rs) else ('T' if (pn[1] in rs and pn[0] not in rs) else None)
+    def expand(e, depth=0):
+        """nodes of e with single-definition locals replaced by their definitions"""
+        out = []
+        for x in walk(e):
+            out.append(x)
+            if x['k'] == 'ref' and x.get('dk') == 'local' and depth < 4:
+                ds = q.local_defs(f, x['did'])
+                if len(ds) == 1:
+                    out += expand(ds[0][1], depth + 1)
+        return out
+    nh = 0
+    for nd in f.all_nodes():
+        if not ((nd['k'] == 'call' and nd.get('opc') == '=' and nd.get('args')) or (nd['k'] == 'bin' and nd['op'] == '=')):
+            continue
+        lhs, rhs = (nd['args'][0], nd['args'][1]) if nd['k'] == 'call' else (nd['lhs'], nd['rhs'])
+        lt = q.render(f, lhs)
+        if '->hops[' not in lt:
+            continue
+        xs = expand(rhs)
+        outs = [x for x in xs if x['k'] == 'call' and (q.callee_name(x) or '').endswith('get_outgoing_route')]
+        ins = [x for x in xs if x['k'] == 'call' and (q.callee_name(x) or '').endswith('get_incoming_route')]
+        crs = [x for x in xs if x['k'] == 'call' and (q.callee_name(x) or '').endswith('::channel_route')]
+        if not crs:
+            continue
+        nh += 1
+        so = {side(roots_of(f, x.get('obj'))) for x in outs}
+        si = {side(roots_of(f, x.get('obj'))) for x in ins}
+        for c in crs:
+            n += 1
+            a0, a1 = side(roots_of(f, c['args'][0])), side(roots_of(f, c['args'][1]))
+            ok = len(so) == 1 and len(si) == 1 and None not in so | si and so != si and {a0} == so and {a1} == si
+            run.check(ok, 'R4', 'channel-route-direction', 'sim::simulation::internal_connect: %s <- channel_route(%s, %s)' % (lt, q.render(f, c['args'][0])[:30], q.render(f, c['args'][1])[:30]), f.loc(c),
+                      'the route stored in %s leaves through the %s side\'s outgoing route and ends in the %s side\'s incoming route, but its network part is channel_route(%s side, %s side): with direction-dependent network hops (an asymmetric link) everything the acceptor sends - SYN+ACK, payload, ACKs - crosses the hops configured for the OPPOSITE direction, so connect round trip and transfer times fall below the configured route\'s latency'
+                      % (lt, so, si, a0, a1), 'network part asked for the direction of the route it is part of')
+    if nh < 2:
+        run.broke('internal_connect: fewer than 2 channel routes (c->hops[0], c->hops[1]) built from channel_route found')
+    if n < 3:
+        run.broke('fewer than 3 uses of configuration::channel_route found (find_udp_socket, internal_connect)')
